@@ -31,7 +31,7 @@ ASSUMPTIONS = [
     "AutoMod (jax) is unreachable in this image",
 ]
 UNREACHABLE = ["AutoMod (jax not installed)"]
-FLOORS = {"quick": {"cases_held": 700, "probes": 2500, "distinct_nontrivial": 250},
+FLOORS = {"quick": {"cases_held": 700, "probes": 2500, "distinct_nontrivial": 250, "reuse_probes": 800},
           "thorough": {"cases_held": 30000, "probes": 100000, "distinct_nontrivial": 1500}}
 K7 = "EigenSolve-sparse/eigenvector-adjoint-factorises-exactly-singular-shifted-matrix"
 
@@ -78,8 +78,8 @@ def probe(cfg, rng, ctx, partial):
         with warnings.catch_warnings():
             warnings.simplefilter("ignore")
             mod.sensitivity()
-    except RuntimeError as e:
-        if cfg.key.startswith("EigenSolve/sparse") and "exactly singular" in str(e) and mask[1]:
+    except (RuntimeError, np.linalg.LinAlgError) as e:
+        if cfg.key.startswith("EigenSolve/sparse") and ("exactly singular" in str(e) or "Singular matrix" in str(e)) and mask[1]:
             # the eigenvector adjoint factorises A - lambda_i B, singular by construction; SuperLU raises on an exact zero pivot
             raise Violation(K7, key=cfg.key, error=str(e)[:120])
         raise
@@ -122,6 +122,127 @@ def probe(cfg, rng, ctx, partial):
     return out
 
 
+def _column_split(rng, w):
+    """splits a seed set into two complementary ones: matrix-valued seeds by columns (one mode / load case at a time),
+    the others by output"""
+    a, b = [], []
+    for wj in w:
+        if wj is None or is_dyad(wj) or np.ndim(wj) != 2 or np.shape(wj)[1] < 2:
+            first = bool(rng.integers(0, 2))
+            a.append(wj if first else None)
+            b.append(None if first else wj)
+        else:
+            m = rng.integers(0, 2, np.shape(wj)[1]).astype(bool)
+            m[int(rng.integers(len(m)))] = True
+            if m.all():
+                m[int(rng.integers(len(m)))] = False
+            wa, wb = np.array(wj, copy=True), np.array(wj, copy=True)
+            wa[:, ~m] = 0
+            wb[:, m] = 0
+            a.append(wa)
+            b.append(wb)
+    if all(x is None for x in a):
+        a, b = b, a
+    return a, b
+
+
+def probe_reuse(cfg, rng, ctx):
+    """The same module instance is evaluated at a second input of the same class and back-propagated in two separate
+    sensitivity() calls with complementary seeds (one mode / load case / output at a time, reset() in between): every call must
+    still give the exact adjoint at the *current* input.  (Scaling keeps its first-value factor by documentation and aggregation
+    active sets may change with the input: not probed here.)"""
+    if cfg.name == "Scaling" or "activeTrue" in cfg.key:
+        return []
+    mod = cfg.build()
+    with warnings.catch_warnings():
+        warnings.simplefilter("ignore")
+        mod.response()
+        y_first = [_copy(s.state) for s in mod.sig_out]
+        w0 = [_seed_for(rng, cfg, y, j) for j, y in enumerate(y_first)]
+        wa0, _ = _column_split(rng, w0)
+        for s_, wj in zip(mod.sig_out, wa0):
+            s_.sensitivity = _copy(wj)
+        try:
+            mod.sensitivity()
+        except (RuntimeError, np.linalg.LinAlgError) as e:
+            if cfg.key.startswith("EigenSolve/sparse") and ("exactly singular" in str(e) or "Singular matrix" in str(e)):
+                raise Violation(K7, key=cfg.key, error=str(e)[:120])
+            raise
+        mod.reset()
+        # second input of the same class
+        dv = cfg.dirs(rng)
+        x1 = []
+        for xi, vi in zip(cfg.x0, dv):
+            if cfg.key.startswith("EigenSolve/sparse"):
+                # entry-wise relative change (symmetric): keeps the pattern, the bc rows and the positive definiteness of the mass matrix
+                nz = todense(vi) != 0
+                fac = 1.0 + 2e-3 * np.where(nz, todense(vi) / max(abs(todense(vi)).max(), 1e-300), 0.0)
+                x1.append(type(xi)(sps.csr_matrix(todense(xi) * fac)))
+                continue
+            rel = 0.05
+            step = rel * (abs(todense(xi)).max() if np.size(todense(xi)) else 1.0) / max(abs(todense(vi)).max(), 1e-300) if np.size(todense(vi)) else 0.0
+            xn = xi + step * vi
+            if cfg.name == "OverhangFilter":
+                xn = np.clip(xn, 0.0, 1.0)
+            if sps.issparse(xi):
+                xn = xn.asformat(xi.format)
+            x1.append(xn)
+        for s_, xn in zip(mod.sig_in, x1):
+            s_.state = _copy(xn)
+        mod.response()
+    y1 = [_copy(s.state) for s in mod.sig_out]
+    for y in y1:
+        require(all_finite(y), "response-output-not-finite", module=cfg.name, key=cfg.key)
+    if cfg.name == "EigenSolve":      # stay at a differentiable point
+        lam = np.asarray(y1[0])
+        if lam.size > 1 and np.min(np.abs(lam[:, None] - lam[None, :]) + np.eye(lam.size) * 1e9) < 1e-3 * max(1.0, np.abs(lam).max()):
+            return []
+    w = [_seed_for(rng, cfg, y, j) for j, y in enumerate(y1)]
+    out = []
+    for part, wpart in enumerate(_column_split(rng, w)):
+        if all(x is None for x in wpart):
+            continue
+        for s_, wj in zip(mod.sig_out, wpart):
+            s_.sensitivity = _copy(wj)
+        try:
+            with warnings.catch_warnings():
+                warnings.simplefilter("ignore")
+                mod.sensitivity()
+        except (RuntimeError, np.linalg.LinAlgError) as e:
+            if cfg.key.startswith("EigenSolve/sparse") and ("exactly singular" in str(e) or "Singular matrix" in str(e)):
+                raise Violation(K7, key=cfg.key, error=str(e)[:120])
+            raise
+        g = [_copy(s.sensitivity) for s in mod.sig_in]
+        mod.reset()
+        v = cfg.dirs(rng)
+        if cfg.tangent is None:
+            m2 = cfg.build()
+            with warnings.catch_warnings():
+                warnings.simplefilter("ignore")
+                ys = []
+                for sgn in (0.0, 1.0):
+                    for s_, xi, vi in zip(m2.sig_in, x1, v):
+                        xn = xi + sgn * vi
+                        s_.state = xn.asformat(xi.format) if sps.issparse(xi) else xn
+                    m2.response()
+                    ys.append([todense(s_.state) for s_ in m2.sig_out])
+            yd = [b_ - a_ for a_, b_ in zip(*ys)]
+        else:
+            yd = cfg.tangent(x1, y1, v)
+        an = sum(inner(gi, vi) for gi, vi in zip(g, v))
+        ref = sum(inner(todense(wj), ydj) for wj, ydj in zip(wpart, yd) if wj is not None)
+        gn = np.sqrt(sum(float(np.linalg.norm(todense(gi))) ** 2 for gi in g if gi is not None))
+        vn = np.sqrt(sum(float(np.linalg.norm(todense(vi))) ** 2 for vi in v))
+        S = max(abs(an), abs(ref), 1e-3 * gn * vn, 1e-300)
+        err = abs(an - ref) / S
+        ctx.count("reuse_probes")
+        out.append((err, an, ref))
+        if not err <= cfg.tol * 10:
+            raise Violation(f"adjoint-mismatch-on-reused-instance/{cfg.name}", key=cfg.key, an=an, ref=ref, rel_err=err, call=part,
+                            note=cfg.note)
+    return out
+
+
 def run_case(case, ctx):
     rng = ctx.rng("c01", case["family"], case["i"])
     with warnings.catch_warnings():
@@ -130,6 +251,7 @@ def run_case(case, ctx):
     res = []
     for partial in (False, True):
         res += probe(cfg, rng, ctx, partial)
+    res += probe_reuse(cfg, rng, ctx)
     big = max(max(abs(a), abs(r)) for _, a, r in res)
     return {"key": cfg.key, "nontrivial": big > 1e-12,
             "obs": {"module": cfg.name, "max_rel_err": max(e for e, _, _ in res), "an": res[0][1], "ref": res[0][2]}}
